@@ -1,4 +1,5 @@
 """Frontlines: Fuel of War (C07): how the generic property runners drive it."""
+from props import malformed
 
 FAMILY = dict(
     send_units=1, name="ffow", nargs=2, gen="ffow", retries=1, port=0, decode_property="C07", entry="ffow",
@@ -26,7 +27,7 @@ def c10_build(valid, unit, v, r, new_id):
         elif e == "F":
             faults.append(True)
         elif e == "M":
-            ds.append(b"\xff\xff"); faults.append(False)
+            ds.append(malformed.CURRENT); faults.append(False)
         else:
             ds.append(reply); faults.append(False)
     c.script = [ds]
